@@ -27,6 +27,10 @@ BRACE = ["{a,b}", "{1..3}", "pre{x,y}post", "{a,b}{c,d}", "{a,b,}", "{x}", "{3..
          "{1..10..02}"]         # (zero-padded *bounds* such as {01..10} are open finding C05-F8: the padding is dropped)
 TILDE = ["~", "~+", "~/x", "~nosuchuser"]
 DEFAULTS = ["${v:-w x}", "${v:+w x}", "${u:-$v}", "${u:-\"w x\"}", "${u:-'w x'}", "${u-*}", "${v:+\"$v\"}", "${u:-{a,b}}", "${u:-~}"]
+# pieces used INSIDE one double-quoted string (the quoting state must survive every nested default / alternate word)
+DQIN = ["x", " ", "$v", "${u:-x}", "${u:-'y z'}", "${v:+$1}", "${v:+'$1'}", "${u:-\\q}", "${u-\"a b\"}", "${u:-*}", "${u:-$v}",
+        "${v:-'n'}", "$(printf 'p q')", "$@", "${a[@]}", "${u:-~}", "\\$", "'", "${u:-\"$v\"}", "${u:+z}", "${u:='s t'}", "${v:+\\'}",
+        "${u:-$(printf \"'c d'\")}"]
 PIECES = {"lit": LIT, "quoted": QUOTED, "var": VARS, "subst": SUBST, "brace": BRACE, "tilde": TILDE, "default": DEFAULTS}
 
 
@@ -107,6 +111,24 @@ def gen_cases(rng, quick, scale):
         pos = [rng.choice([v for v in VALUES if v is not None]) for _ in range(rng.randint(0, 3))]
         arr = [rng.choice([v for v in VALUES if v is not None]) for _ in range(rng.randint(0, 3))]
         cases.append(make_case(word, val, pos, arr, ifs, kinds))
+    # double-quoted strings of two (all ordered pairs) and three (random) inner pieces, alone and glued to unquoted text
+    dq = [(x, y) for x in DQIN for y in DQIN]
+    for n, combo in enumerate(dq + [tuple(rng.choice(DQIN) for _ in range(3)) for _ in range(int((300 if quick else 6000) * scale))]):
+        inner = "".join(combo)
+        word = ['"%s"', 'p"%s"', '"%s"$v', '"%s"\'q\''][n % 4] % inner
+        val = VALUES[n % len(VALUES)]
+        ifs = IFS_MODES[(n // 5) % len(IFS_MODES)]
+        pos = [["b c", "d"], [], ["", "x"], ["*"]][n % 4]
+        arr = [["x", "y z"], [], ["a*", "b"]][n % 3]
+        cases.append(make_case(word, val, pos, arr, ifs, ["dq"]))
+    # tilde prefixes whose replacement text contains blanks or glob characters: the result of tilde expansion is never split or globbed
+    for hn, home in enumerate(["/x/my home", "$PWD/[ab]", "*", "a b", " x ", "", "$PWD/a*", "/t\tq", "sub/?", "{a,b}", "~"]):
+        for wn, w in enumerate(["~", "~/x", "~/*", "~/", "x~", "~$v", "$v~", "~/$v", "\"~\"", "~/'q r'", "pre ~ post", "~:~", "${u:-~}", "${u:-~/x}", "~/[x]"]):
+            for ifs in (IFS_MODES if not quick else [IFS_MODES[(hn + wn) % len(IFS_MODES)], IFS_MODES[1]]):
+                c = make_case(w, VALUES[(hn + wn) % len(VALUES)], ["a"], ["x"], ifs, ["tildehome"])
+                c["block"] = "HOME=\"%s\"\n" % home + c["block"]
+                c["home"] = home
+                cases.append(c)
     # every value x every IFS x the plain variable forms (the field-splitting core)
     for val in VALUES:
         for ifs in IFS_MODES:
@@ -127,7 +149,7 @@ def run(run):
                 "pieces from {literals incl. glob chars, quotes, $v/$@/$*/arrays quoted and not, $( ) ` ` $(( )), braces, tildes, "
                 "defaults with nested words}, over v in %d values (unset, empty, blank-padded, multi-field, glob-like, brace-like), "
                 "positional lists of 0-3, IFS in {unset, default, space, newline, empty}, in a tree with dot-files and names with spaces; "
-                "argv of an external command and $# after `set --` compared with bash. "
+                "plus double-quoted strings of 2-3 inner pieces (23 pieces: nested default / alternate / assign words with quotes and backslashes, substitutions, $@, arrays) alone and glued to unquoted text, and tilde prefixes under 11 hostile HOME values (blanks, glob and brace characters, empty) x 15 words; argv of an external command and $# after `set --` compared with bash. "
                 "non-trivial = distinct (piece kinds, IFS mode) where the word produced != 1 field or involved a glob/brace"
                 % (sum(len(v) for v in PIECES.values()), len(VALUES)))
     run.assumptions = ["bash 5.2.15 under C.utf8 reference", "IFS limited to whitespace sets as the statement says",
